@@ -292,6 +292,72 @@ class SinceFrac(Op):
         return "sincefrac/%s/%s" % (a[0], "frac" if a[2] else "whole")
 
 
+class StrptimeUnix(Op):
+    """The same translation reached through the parsers: TimePointParser(assumed_time_zone=...).strptime(n, "%s")
+    and the CLI helper's parse format.  Whatever zone the parser assumes for texts WITHOUT zone information, a Unix
+    time is an instant: the point returned is epoch + n, carrying the local offset.  Unix times are concentrated
+    where a field of the translated point is zero (year 0, midnight, local offset 0), and around the epoch."""
+    prop = PROP
+    name = "strptimeunix"
+    model = False
+
+    ZONES = [None, (0, 0), (5, 30), (-3, 0), (-9, -30), (12, 0), (0, 45)]
+
+    def gen(self, rng, tier, boost):
+        n = 500 * boost if tier == "quick" else 5000 * boost
+        for _ in range(n):
+            m = gens.mode(rng)
+            ep = T.inst(m, ("c", 1970, 1, 1, 0, 0, 0, 0, 0))
+            y = rng.choice([0, 0, 0, 1, -1, 1970, 1969, 2000, rng.randint(-3, 3), rng.randint(1, 9998)])
+            lo = T.inst(m, ("c", y, 1, 1, 0, 0, 0, 0, 0)) - ep
+            hi = T.inst(m, ("c", y + 1, 1, 1, 0, 0, 0, 0, 0)) - ep
+            r = rng.random()
+            if r < 0.3:
+                secs = rng.choice([lo, lo + 1, hi - 1, lo - 1, hi, lo + 86400, hi - 86400])
+            elif r < 0.5:
+                secs = lo + 86400 * rng.randint(0, 359) + rng.choice([0, 0, 3600, 60, 1, 43200])
+            else:
+                secs = rng.randint(lo, hi - 1)
+            local = rng.choice([(0, 0), (0, 0), (0, 0), (1, 0), (-5, 0), (5, 30), (-9, -30)])
+            yield (m, secs, local, rng.choice(self.ZONES), rng.random() < 0.3)
+
+    def line(self, a):
+        return "strptimeunix %s %d local=%r assumed=%r unknown=%r" % a
+
+    def impl(self, a):
+        from metomi.isodatetime import timezone as tzmod
+        from metomi.isodatetime.parsers import TimePointParser
+        m, secs, local, assumed, unknown = a
+        set_mode(m)
+        saved = tzmod.get_local_time_zone
+        tzmod.get_local_time_zone = lambda: local
+        try:
+            kw = {}
+            if assumed is not None:
+                kw["assumed_time_zone"] = assumed
+            elif unknown:
+                kw["default_to_unknown_time_zone"] = True
+            return T.canon_tp(TimePointParser(**kw).strptime(str(secs), "%s"))
+        finally:
+            tzmod.get_local_time_zone = saved
+
+    def oracle(self, a, out):
+        m, secs, local, assumed, unknown = a
+        epoch = T.inst(m, ("c", 1970, 1, 1, 0, 0, 0, 0, 0))
+        if len(out.split()) != 9:
+            return "%s failed: %s" % (self.line(a), out)
+        r = T.parse_tp(out)
+        if T.inst(m, r) != epoch + secs:
+            return "%s gave %s, off by %d s" % (self.line(a), T.describe_tp(r), T.inst(m, r) - epoch - secs)
+        if (r[7], r[8]) != tuple(local) or not T.valid(m, r, strict=True):
+            return "%s gave %s (local zone %r)" % (self.line(a), T.describe_tp(r), local)
+
+    def label(self, a):
+        return "strptimeunix/%s/%s/%s" % (a[0], "local0" if a[2] == (0, 0) else "local",
+                                           "assumed" if a[3] else "default")
+
+
 def ops():
     import strf2ops
-    return [LocalTZ(), LocalTZFormat(), FromUnix(), Since(), SinceFrac(), FromUnixFrac(), strf2ops.UnixQOp()]
+    return [LocalTZ(), LocalTZFormat(), FromUnix(), Since(), SinceFrac(), FromUnixFrac(), StrptimeUnix(),
+            strf2ops.UnixQOp()]
